@@ -6,10 +6,10 @@ Q_EMin == -5
 Q_EMax == 1
 Q_Factors == {<<3, 0>>, <<5, -3>>, <<-7, -2>>}
 Q_Divisors == {<<3, 0>>, <<5, -3>>, <<-7, -2>>}
-\* full: 5-bit significands (DESIGN C07 MC-2), exponents -9..1 (values 2^-5 .. 62)
+\* full: 5-bit significands (DESIGN C07 MC-2), exponents -8..1 (values 2^-4 .. 62)
 F_P == 5
-F_EMin == -9
+F_EMin == -8
 F_EMax == 1
-F_Factors == {<<1, 0>>, <<3, 0>>, <<5, -3>>, <<-7, -2>>, <<13, -5>>, <<31, -4>>, <<17, -7>>}
-F_Divisors == {<<1, 0>>, <<3, 0>>, <<5, -3>>, <<-7, -2>>, <<11, -1>>, <<29, -6>>, <<25, -2>>}
+F_Factors == {<<3, 0>>, <<5, -3>>, <<-7, -2>>, <<13, -5>>, <<31, -4>>, <<17, -7>>}
+F_Divisors == {<<3, 0>>, <<5, -3>>, <<-7, -2>>, <<11, -1>>, <<29, -6>>, <<25, -2>>}
 =============================================================================
